@@ -377,6 +377,8 @@ Section Pipeline.
   Variable run_subscription : bool -> Schema -> exec_request -> Z -> list Resp.
   (** PersistedQueryExtension(storage, execute) (property C18) *)
   Variable pq_ext : (request -> Resp * list event) -> request -> Resp * list event.
+  (** jsoniter.Marshal of a response; [None]: the response does not marshal (C03's subject) *)
+  Variable marshal : Resp -> option bytes.
 
   Record api := {
     a_schema : Schema;
@@ -400,7 +402,7 @@ Section Pipeline.
         (execute (a_hook a) (a_schema a) x cost, [EvValidate f (r_query r) (r_opname r) (r_vars r); EvExecute x cost])
     end.
 
-  Inductive http_outcome := HttpError (status : Z) | HttpOK (r : Resp).
+  Inductive http_outcome := HttpError (status : Z) | HttpOK (body : bytes).
 
   Section Serve.
     Variable qk : quirks.
@@ -415,27 +417,32 @@ Section Pipeline.
           let f := features_of a c in
           let ex := validate_execute a f in
           let (resp, tr) := if a_pq a then pq_ext ex r else ex r in
-          (HttpOK resp, ((match a_features a with Some _ => [EvFeatures c] | None => [] end) ++ tr)%list)
+          (match marshal resp with Some body => HttpOK body | None => HttpError 500 end,
+           ((match a_features a with Some _ => [EvFeatures c] | None => [] end) ++ tr)%list)
       end.
 
     (** graphqlWSHandler.HandleInit: the feature set is computed once per connection *)
     Definition handle_init (a : api) (c : Ctx) : Features * list event :=
       (features_of a c, match a_features a with Some _ => [EvFeatures c] | None => [] end).
 
-    Inductive ws_out := WsData (id : bytes) (r : Resp) | WsComplete (id : bytes).
+    Inductive ws_out := WsData (id : bytes) (payload : bytes) | WsComplete (id : bytes).
+
+    (** Connection.SendData: a response that does not marshal is logged, no frame is sent *)
+    Definition send_data (id : bytes) (r : Resp) : list ws_out :=
+      match marshal r with Some payload => [WsData id payload] | None => [] end.
 
     (** graphqlWSHandler.HandleStart ([subscribed]: an operation with this id is already running) *)
     Definition handle_start (a : api) (hf : Features) (subscribed : bool) (id q : bytes) (v : option gomap) (n : bytes)
       : list ws_out * list event :=
       match parse_validate (a_schema a) hf (a_default_cost a) q n v with
-      | PVErrors resp => ([WsData id resp; WsComplete id], [EvValidate hf q n v])
+      | PVErrors resp => ((send_data id resp ++ [WsComplete id])%list, [EvValidate hf q n v])
       | PVOk d cost =>
           let x := {| x_query := q; x_doc := d; x_opname := n; x_vars := v; x_features := hf; x_ext := None |} in
           if is_subscription d n then
             if subscribed then ([], [EvValidate hf q n v])
-            else ((map (WsData id) (run_subscription (a_hook a) (a_schema a) x cost) ++ [WsComplete id])%list,
+            else ((flat_map (send_data id) (run_subscription (a_hook a) (a_schema a) x cost) ++ [WsComplete id])%list,
                   [EvValidate hf q n v; EvSubscribe x cost])
-          else ([WsData id (execute (a_hook a) (a_schema a) x cost); WsComplete id],
+          else ((send_data id (execute (a_hook a) (a_schema a) x cost) ++ [WsComplete id])%list,
                 [EvValidate hf q n v; EvExecute x cost])
       end.
 
@@ -488,15 +495,16 @@ Arguments a_default_cost {Schema Features Ctx}. Arguments a_hook {Schema Feature
 Arguments Build_api {Schema Features Ctx}.
 Arguments features_of {Schema Features Ctx}.
 Arguments validate_execute {Schema Features Ctx Doc Resp}.
-Arguments HttpError {Resp}. Arguments HttpOK {Resp}.
+
 Arguments serve_graphql {Schema Features Ctx Doc Resp}.
 Arguments handle_init {Schema Features Ctx Doc}.
-Arguments WsData {Resp}. Arguments WsComplete {Resp}.
+
 Arguments handle_start {Schema Features Ctx Doc Resp}.
-Arguments WsNothing {Resp}. Arguments WsCloses {Resp}. Arguments WsAnswers {Resp}. Arguments WsNotStart {Resp}.
+
 Arguments serve_ws {Schema Features Ctx Doc Resp}.
 Arguments c_def {Features Ctx SchemaDef}. Arguments c_preprocess {Features Ctx SchemaDef}.
 Arguments c_features {Features Ctx SchemaDef}. Arguments c_default_cost {Features Ctx SchemaDef}.
 Arguments c_hook {Features Ctx SchemaDef}. Arguments c_pq {Features Ctx SchemaDef}.
 Arguments Build_config {Features Ctx SchemaDef}.
 Arguments api_of_config {Schema Features Ctx SchemaDef}.
+Arguments send_data {Resp}.
